@@ -168,9 +168,27 @@ def run_case(case):
         if e <= 1e-3: break
     if excess[-1] > 1e-3:
         if len(excess) >= 2 and excess[-1] > excess[-2] / 2:
+            # root-cause signature of F23 (fixed-step mirror descent caught in a 2-cycle): one more iteration gives a
+            # clearly different answer with the same loss; a run that converged to a wrong fixed point does not do that
+            eng = mbi.LocalInference(domain, iters=4001, marginal_oracle=case['oracle'], inner_iters=case['inner_iters'])
+            eng2 = mbi.LocalInference(domain, iters=4000, marginal_oracle=case['oracle'], inner_iters=case['inner_iters'])
+            ma, mb = eng.estimate(ms, total=case['total']), eng2.estimate(ms, total=case['total'])
+            o2 = Out()
+            la, lb = clique_loss(o2, ma, meas), clique_loss(o2, mb, meas)
+            if o2.ok:
+                diff = max(float(np.max(np.abs(ma.project(tuple(m.proj)).values - mb.project(tuple(m.proj)).values))) for m in meas)
+                if diff > 1e-2 * float(ma.total) and abs(la - lb) <= 1e-3 * max(la, lb):
+                    out.extra['two_cycle'] = True
             return out.fail('plateau_above_optimum', 'oracle %s on disjoint cliques %s: relative excess over the certified optimum %s at iterations [1000, 4000, 16000]' % (
                 case['oracle'], [tuple(m.proj) for m in meas], ['%.3g' % x for x in excess]))
         out.inconclusive = True
     uniq = set(tuple(sorted(p)) for p in projs)
     out.nontrivial = len(uniq) >= 2 and (any(not np.array_equal(m.Qd, np.eye(m.Qd.shape[1])) for m in meas) or len(set(m.noise for m in meas)) > 1)
     return out
+
+
+def _two_cycle(case, outc):
+    return bool(outc.extra.get('two_cycle')) and case.get('mode') == 'exact'
+
+
+KNOWN = {'two_cycle': _two_cycle}
